@@ -15,13 +15,15 @@ SCEN = [
     ("shelve_reduce_warm", [(1, {}, [["call", 3]])], [(1, {}, [["shelveref", 3]]), (1, {}, [["reduce", {"items_limit": 0}]])], None),
     ("expires_call_reduce", [(1, {"expires": 1000}, [["call", 3]])], [(1, {"expires": 1000}, [["call", 3]]), (1, {}, [["reduce", {"items_limit": 0}]])], None),
     ("call_call_clear", [(1, {}, [["call", 3]])], [(1, {}, [["call", 3]]), (1, {}, [["call", 4]]), (1, {}, [["clear"]])], dict(ops="CCL", vers="111", keys="ABA", warm=("a",))),
+    ("call_call_clear_cold", [], [(1, {}, [["call", 3]]), (1, {}, [["call", 4]]), (1, {}, [["clear"]])], None),
+    ("call_call_clearall_cold", [], [(1, {}, [["call", 3]]), (1, {}, [["call", 4]]), (1, {}, [["clear_all"]])], None),
     ("srcchange_call_call", [(1, {}, [["call", 3], ["call", 4]])], [(2, {}, [["call", 3]]), (2, {}, [["call", 4]])], None),
     ("threads_call_call_clear", [(1, {}, [["call", 3]])], [(1, {}, [["threads", [[["call", 3], ["call", 5]], [["clear"], ["call", 4]]]]])], None),
     ("reduce_clear_orphan", [(1, {}, [["call", 3], ["call", 4], ["orphan", "0" * 32, "f" * 32]])], [(1, {}, [["reduce", {"items_limit": 1}]]), (1, {}, [["clear"]])], None),
     ("reduce_reduce_orphan", [(1, {}, [["call", 3], ["call", 4], ["orphan", "0" * 32, "f" * 32]])], [(1, {}, [["reduce", {"items_limit": 0}]]), (1, {}, [["reduce", {"items_limit": 1}]])], None),
     ("clearall_call", [(1, {}, [["call", 3]])], [(1, {}, [["call", 3], ["call", 4]]), (1, {}, [["clear_all"]])], None),
 ]
-QUICK = {"call_call_same_cold", "call_clear_cold", "call_clear_warm", "call_reduce_warm", "shelve_reduce_warm", "call_call_clear", "threads_call_call_clear", "expires_call_reduce", "reduce_clear_orphan", "clearall_call"}
+QUICK = {"call_call_same_cold", "call_clear_cold", "call_clear_warm", "call_reduce_warm", "shelve_reduce_warm", "call_call_clear", "threads_call_call_clear", "expires_call_reduce", "reduce_clear_orphan", "clearall_call", "call_call_clearall_cold"}
 
 
 def spec_of(base, k, ver, opts, ops):
@@ -124,6 +126,17 @@ def body(c):
             for first, second, n1, n2 in ((A, B, nA, nB), (B, A, nB, nA)):
                 for a in range(0, n1 + 1):
                     jobs.append((base, sc, sid, [first] * a + [second] * (n2 + 10) + [first] * (n1 + 10), 0)); sid += 1
+        if len(actors) >= 3:
+            # three users: A is pre-empted twice - B runs to completion inside the first window, C inside a second window that
+            # opens one or two calls later (e.g. B creates what A was about to create, C removes it before A looks again)
+            import itertools
+            for A, B, C in itertools.permutations(actors[:3], 3):
+                # (threads of one process are actors without a participant entry of their own)
+                destructive = len(parts) <= C or any(op[0] in ("clear", "clear_all", "reduce") for op in parts[C][2])
+                if c.quick and not destructive: continue
+                for a in range(0, cnt[A] + 1):
+                    for a2 in (1, 2):
+                        jobs.append((base, sc, sid, [A] * a + [B] * (cnt[B] + 10) + [A] * a2 + [C] * (cnt[C] + 10) + [A] * (cnt[A] + 10), 0)); sid += 1
         for s in range(nrand):
             jobs.append((base, sc, sid, None, c.seed * 1000 + s)); sid += 1
         if mcfg is not None:
